@@ -1,8 +1,8 @@
 package main
 
 import (
-	"go/ast"
 	"fmt"
+	"go/ast"
 	"go/types"
 	"sort"
 	"strings"
@@ -39,21 +39,21 @@ type Roles struct {
 	// SchemaCtx fields
 	FData, FValPtr, FPath, FDType, FCanCatch, FExit, FHasCaught, FTest, FExecCtx *types.Var
 
-	Kinds        []*types.Named              // schema kinds: named types in zog whose pointer implements ZogSchema
-	KindByName   map[string]*types.Named     //
-	Process      map[string]*ssa.Function    // kind name -> process method
-	Validate     map[string]*ssa.Function    // kind name -> validate method
-	Dispatch     map[*ssa.Function]string    // dispatch method -> "process"/"validate"
-	Pipelines    []*ssa.Function             // primitiveProcessor, primitiveValidator
-	EntryPoints  []*ssa.Function             // exported Parse/Validate methods of schema kinds
-	Providers    []*types.Named              // DataProvider implementations
-	Pools        []*ssa.Global               // package-level sync.Pool vars
-	PoolElem     map[*ssa.Global]types.Type  // pool var -> element struct type (pointee)
-	PooledTypes  map[string]bool             // type string of pointee types that are pooled
+	Kinds       []*types.Named             // schema kinds: named types in zog whose pointer implements ZogSchema
+	KindByName  map[string]*types.Named    //
+	Process     map[string]*ssa.Function   // kind name -> process method
+	Validate    map[string]*ssa.Function   // kind name -> validate method
+	Dispatch    map[*ssa.Function]string   // dispatch method -> "process"/"validate"
+	Pipelines   []*ssa.Function            // primitiveProcessor, primitiveValidator
+	EntryPoints []*ssa.Function            // exported Parse/Validate methods of schema kinds
+	Providers   []*types.Named             // DataProvider implementations
+	Pools       []*ssa.Global              // package-level sync.Pool vars
+	PoolElem    map[*ssa.Global]types.Type // pool var -> element struct type (pointee)
+	PooledTypes map[string]bool            // type string of pointee types that are pooled
 	// the unexported methods of the ZogSchema interface, found by signature (and, for the two that take
 	// a *SchemaCtx, by which of them the exported Parse entry points reach): renaming them changes nothing
 	MProcess, MValidate, MGetType, MSetCoercer string
-	kindFieldSet map[*types.Var]*types.Named // every field of a schema kind struct
+	kindFieldSet                               map[*types.Var]*types.Named // every field of a schema kind struct
 	// canonical role of an unexported field, found by its type or by the exported builder that writes it
 	// (tests, required, postTransforms, coercer, defaultVal, catch, isNot, schema; tag, value for providers),
 	// so that renaming the field changes nothing
